@@ -1009,6 +1009,15 @@ fn run_n<const N: usize>(cfg: &HxCfg) -> HxResult {
             for _ in 0..nworkers {
                 s.spawn(|| {
                     crate::real::install_panic_hook();
+                    // counted as done even if this worker dies of a harness panic (the merging
+                    // thread must not wait for it; the panic then ends the process with status 101)
+                    struct Done<'a>(&'a std::sync::atomic::AtomicUsize);
+                    impl Drop for Done<'_> {
+                        fn drop(&mut self) {
+                            self.0.fetch_add(1, std::sync::atomic::Ordering::SeqCst);
+                        }
+                    }
+                    let _done = Done(&workers_done);
                     let mut cache: Cache<N> = Cache { at: None, g: None, m: Model::default() };
                     loop {
                         let ci = next_chunk.fetch_add(1, std::sync::atomic::Ordering::Relaxed);
@@ -1032,7 +1041,6 @@ fn run_n<const N: usize>(cfg: &HxCfg) -> HxResult {
                         *outs[ci].lock().unwrap() = Some(out);
                     }
                     crate::inflight::idle();
-                    workers_done.fetch_add(1, std::sync::atomic::Ordering::SeqCst);
                 });
             }
             // ordered, streaming merge by this thread while the workers run ahead: chunk results
